@@ -95,15 +95,18 @@ Print Assumptions checks_follow_flag.
 
 (** 5. Where the gates are called: every entry point of the four features (Model.v,
     [required_sites]) calls the feature's gate before anything but plain assignments, under
-    the expected guard; nobody outside experimental.py holds a copy of the flag. *)
+    exactly the required condition — unconditionally; "the callee type is a function tensor";
+    "the nested function's set of captured variables is non-empty" (the guard is the truth
+    value of the set the checked definition records as captured, not a narrowed copy);
+    nobody outside experimental.py holds a copy of the flag. *)
 Theorem gated_entry_points :
   forallb req_met required_sites = true /\ foreign_flag_uses = [] /\
   forall f, exists r, In r required_sites /\ r_feature r = f /\ req_met r = true.
 Proof.
   split; [exact sites_ok|]. split; [exact no_foreign_flag|].
   intro f. pose proof sites_ok as S. rewrite forallb_forall in S.
-  destruct f; [exists (nth 0 required_sites (mkReq Lists "" "" "")) | exists (nth 4 required_sites (mkReq Lists "" "" ""))
-              | exists (nth 6 required_sites (mkReq Lists "" "" "")) | exists (nth 7 required_sites (mkReq Lists "" "" ""))];
+  destruct f; [exists (nth 0 required_sites (mkReq Lists "" "" "" [])) | exists (nth 4 required_sites (mkReq Lists "" "" "" []))
+              | exists (nth 6 required_sites (mkReq Lists "" "" "" [])) | exists (nth 7 required_sites (mkReq Lists "" "" "" []))];
     (split; [simpl; tauto|]); (split; [reflexivity|]); apply S; simpl; tauto.
 Qed.
 Print Assumptions gated_entry_points.
